@@ -73,7 +73,11 @@ pub fn run(ctx: &mut Ctx) {
         }
         let alg = [DigestAlgorithm::SHA256, DigestAlgorithm::SHA384, DigestAlgorithm::SHA512][rng.gen_range(0..3)];
         let decoys = rng.gen_bool(0.5);
-        let (mdoc, device_key): (_, SigningKey) = issue(&mut rng, &pki, MDL, nsm.clone(), alg, decoys);
+        // one session in three presents a document of a third-party issuer (digestIDs restart at 0 in every namespace)
+        let (mdoc, device_key): (_, SigningKey) = if si % 3 == 2 {
+            let dk = SigningKey::random(&mut rng);
+            match issue_third_party(&mut rng, &pki, MDL, &nsm, alg, cose_key_of(&dk)) { Some(m) => { ctx.count("document:third-party-issuer"); (m, dk) } None => issue(&mut rng, &pki, MDL, nsm.clone(), alg, decoys) }
+        } else { issue(&mut rng, &pki, MDL, nsm.clone(), alg, decoys) };
         let mut mdocs = vec![mdoc];
         let mut keys: BTreeMap<String, SigningKey> = [(MDL.to_string(), device_key)].into_iter().collect();
         if rng.gen_bool(0.3) {
@@ -107,7 +111,14 @@ pub fn run(ctx: &mut Ctx) {
             r
         };
         let first = gen_req(&mut rng);
-        let reg = registry(vec![(pki.iaca.clone(), TrustPurpose::Iaca)]);
+        // the reader trusts the issuer's root; in some sessions the registry also lists other roots first: an unrelated
+        // one, and an EXPIRED earlier issue of the same root (same name, same key) as after a root renewal
+        let mut anchors = vec![];
+        if si % 4 == 1 { anchors.push((Pki::generate(&mut rng).iaca, TrustPurpose::Iaca)); }
+        if si % 4 >= 2 { anchors.push((crate::pki::root_cert_valid(&pki.iaca_key, "CN=Test IACA,C=US", 7, 1_000_000_000, 1_100_000_000), TrustPurpose::Iaca)); ctx.count("registry:expired-earlier-issue-first"); }
+        anchors.push((pki.iaca.clone(), TrustPurpose::Iaca));
+        if si % 4 == 3 { anchors.push((pki.reader_ca.clone(), TrustPurpose::ReaderCa)); }
+        let reg = registry(anchors);
         let Ok(e) = establish(documents_of(mdocs), drms, &first, reg, Default::default()) else { ctx.rng = rng; continue };
         let (mut dev, mut rdr) = (e.dev, e.rdr);
         let ble_equal = e.ble_device == e.ble_reader;
